@@ -160,7 +160,6 @@ _FALLBACK_METHOD_FROM_TD_NOWRAP = [
     "batch_size",
     "bytes",
     "cat_tensors",
-    "clear_refs_for_compile_",
     "data_ptr",
     "depth",
     "dim",
@@ -299,6 +298,7 @@ _FALLBACK_METHOD_FROM_TD = [
     "clamp_min_",
     "clear",
     "clear_device_",
+    "clear_refs_for_compile_",
     "complex128",
     "complex32",
     "complex64",
